@@ -161,7 +161,7 @@ def check_divisions_truthful(ddf, what, sig, parts=None):
     if parts is None:
         parts = partitions(ddf)
     ensure(len(parts) == ddf.npartitions, f"{what}: {len(parts)} computed partitions, npartitions={ddf.npartitions}", "partition-count", **sig)
-    if not ddf.known_divisions:
+    if not divisions_known(divs):
         return parts
     ensure(all(a <= b for a, b in zip(divs, divs[1:])), f"{what}: divisions not sorted {short(divs)}", "divisions-not-sorted", **sig)
     # (repeated interior divisions are truthful as long as the partition between them is empty, which the interval
